@@ -57,6 +57,18 @@ CLAIMS = {
         "Trusts the harness model (written from the doc comments and the property statement) and Constraint.Match for single versions.",
         "DESIGN.md §7 C14",
     ),
+    "C13": (
+        "exhaustive enumeration of small rooted graphs under all renumberings + property-based testing (rapid) of random graphs under random renumbering/shuffle; metamorphic oracle plus a harness isomorphism labeller",
+        "Exhaustive for every rooted digraph up to 3 nodes (quick) / 4 nodes and a 5-node slice (thorough) over a 3-name alphabet with 0-1 node errors against all renumberings of non-root nodes; sampled beyond; random graphs up to 40 nodes with duplicate versions, parallel edges, self-loops, cycles, unreachable nodes and node errors under random renumbering and edge/error shuffles. Canon must fail for both or give identical graphs, be idempotent, keep the root, and stay isomorphic to its input. Holds on everything explored; exhaustive only for the enumerated sizes.",
+        "Trusts the harness isomorphism labeller (colour refinement + individualise-and-refine) for the 'isomorphic to input' clause.",
+        "DESIGN.md §7 C13, §6.8",
+    ),
+    "C19": (
+        "model-based stateful property testing (rapid state machine) against a map model, plus text round trips through schema.New / schema.ParseResolve",
+        "Generated histories of set/add/clone over pools of dep.Type and version.AttrSet values with arbitrary attribute values are compared after every step with a map model: accessors, Equal, Compare (antisymmetric, transitive, zero iff same content), clone independence; every resulting set with a text form is written in the schema's documented syntax and must parse back equal. Holds on everything explored; not a proof.",
+        "Trusts the map model; values containing the schema's own delimiters (| # @ on import lines, ': ' on graph lines, white space in the unquoted Attr|Version form) have no text form and are counted as excluded.",
+        "DESIGN.md §7 C19",
+    ),
 }
 
 NOT_YET = "check under construction in this session (not yet claimed)"
